@@ -1,4 +1,5 @@
 import Mastverif.Lemmas.Store
+import Mastverif.Lemmas.IncrTree
 /-!
 # C13 — incremental, garbage-free persistence; clean means unchanged (property theorems)
 
@@ -9,10 +10,17 @@ the Go code: family `persist`):
   nothing and returns the root it came from;
 * `C13_second_flush_writes_nothing`: persisting twice in a row writes nothing the second time;
 * `C13_clean_after_flush`: after a flush the tree is clean.
-The per-key bounds (rewrites only along modified key ranges, at most 2·height+2 nodes per
-modified key) and "clean ⇒ contents unchanged" are checked on the implementation by the
-`persist` family's oracle (decoded base version, key ranges, modified-key sets); their model
-proofs are on the work list in DESIGN.md.
+* `C13_clean_means_unchanged`: along any history without a persist, a tree that reports itself
+  clean at the end IS the tree the history started from (so its contents equal that version);
+* `C13_written_nodes_hold_a_modified_key`: starting from a version with nothing to write (just
+  persisted / loaded / empty: `C13_nothing_to_write_when_clean` shows every clean tree reached by
+  any history is one), along any history without a persist and without a change of height, every
+  node the next flush writes below the top node has one of the modified keys within its closed key
+  range (`DR`), i.e. nodes whose range holds no modified key are never rewritten;
+* `C13_writes_per_modified_key`: hence the next `MakeRoot` writes at most `2·height` nodes per
+  modified key below the top node, plus the top node (≤ `2·height + 2` per key, for any list of
+  keys that contains the modified ones — in particular the list without repetitions).
+The key ranges are those of the version being written (separators on the node's path).
 -/
 namespace Mast.Tree
 open T
@@ -77,7 +85,70 @@ theorem C13_noop_same_root (e : Enc) (m : Tree) (hclean : m.dirty = false) :
   · simp [*]
   · next hne => simp [hclean, hne]
 
+variable (layer : Nat → Nat)
+
+theorem C13_clean_means_unchanged (e : Enc) (ops : List Op) (m : Tree)
+    (hp : ∀ op ∈ ops, isPersist op = false) (hc : (execT layer e m ops).dirty = false) :
+    execT layer e m ops = m := clean_unchanged layer e ops m hp hc
+
+/-- a clean tree has nothing to write -/
+def CleanOK (m : Tree) : Prop := m.dirty = false → DR [] none none m.root
+
+theorem cleanOK_step (e : Enc) (m : Tree) (op : Op) (h : CleanOK m) : CleanOK (stepT layer e m op).1 := by
+  by_cases hp : isPersist op = true
+  · cases op <;> simp [isPersist] at hp
+    simp only [stepT]
+    intro _
+    unfold makeRoot
+    split
+    · next he =>
+      have : ∃ q, m.root = last q nil := by
+        unfold isEmptyTop at he; split at he <;> simp_all
+      obtain ⟨q, hq⟩ := this
+      simp only [hq]; exact Or.inl rfl
+    · split
+      · next hd => exact h (by simpa using hd)
+      · simp only; exact allP_DR [] _ none none (allP_persistAll m.root)
+  · have hp' : isPersist op = false := by simpa using hp
+    intro hc
+    rcases step_dirty layer e m op hp' with h1 | h1
+    · rw [h1] at hc ⊢; exact h hc
+    · rw [h1] at hc; cases hc
+
+/-- every clean tree reached by any history from the empty tree has nothing to write -/
+theorem C13_nothing_to_write_when_clean (e : Enc) : ∀ (ops : List Op) (m : Tree), CleanOK m →
+    CleanOK (execT layer e m ops) := by
+  intro ops
+  induction ops with
+  | nil => intro m h; exact h
+  | cons op ops ih => intro m h; exact ih _ (cleanOK_step layer e m op h)
+
+theorem cleanOK_empty (bf : Nat) : CleanOK (Tree.empty bf) := fun _ => Or.inl rfl
+
+/-- **only nodes whose key range holds a modified key are written** -/
+theorem C13_written_nodes_hold_a_modified_key (e : Enc) (m : Tree) (ops : List Op) (hi : Inv layer m)
+    (hc : m.dirty = false) (hk : CleanOK m) (hp : ∀ op ∈ ops, isPersist op = false)
+    (hh : heightsSame layer e m ops) :
+    DR (modKeys ops) none none (execT layer e m ops).root := by
+  simpa using exec_DR layer e ops m [] hi (hk hc) hp hh
+
+/-- **at most 2·height nodes per modified key, plus the top node** -/
+theorem C13_writes_per_modified_key (e : Enc) (m : Tree) (ops : List Op) (hi : Inv layer m)
+    (hc : m.dirty = false) (hk : CleanOK m) (hp : ∀ op ∈ ops, isPersist op = false)
+    (hh : heightsSame layer e m ops) (M : List Nat) (hM : ∀ k ∈ modKeys ops, k ∈ M) :
+    (makeRoot e (execT layer e m ops)).1.length ≤ M.length * (2 * (execT layer e m ops).height) + 1 := by
+  have hd := C13_written_nodes_hold_a_modified_key layer e m ops hi hc hk hp hh
+  exact makeRoot_count layer e _ M (inv_execT layer e ops m hi) (DR_mono hM _ _ _ hd)
+
+/-- non-vacuity: one insert into a persisted two-level tree dirties the path only -/
+example : (T.cntD (cons false (cons false nil 2 0 (last false nil)) 4 0 (last true (cons true nil 7 0 (last true nil))))) = 1 := by
+  decide
+
 end Mast.Tree
+#print axioms Mast.Tree.C13_clean_means_unchanged
+#print axioms Mast.Tree.C13_nothing_to_write_when_clean
+#print axioms Mast.Tree.C13_written_nodes_hold_a_modified_key
+#print axioms Mast.Tree.C13_writes_per_modified_key
 #print axioms Mast.Tree.C13_reachable
 #print axioms Mast.Tree.C13_names
 #print axioms Mast.Tree.C13_noop
